@@ -1,24 +1,40 @@
 /-
   C15 — read-only paths are never modified.
 
-  Acceptance logic (`is_read_only_path`) and the value-level frame law it relies on:
+  Acceptance logic (`is_read_only_path`), the value-level frame laws it relies on, and the
+  program-level theorem:
   * `accepted_diverges`: a write path the compiler accepts and a read-only path, both made of field
     segments only, either diverge (neither contains the other) or the write lies strictly below a
     NON-recursive read-only path;
-  * `insert_preserves` / `remove_preserves`: an insert / removal (any prune flag) at a field path
-    leaves every diverging field path unchanged — for EVERY value, with no condition on the shape
-    of the value (unlike C18's frame law, coercion cannot hurt a field-only location);
-  so for field-only configurations and programs every accepted write leaves every recursive
-  read-only location unchanged (`accepted_write_preserves`). That every write of a run happens at
-  an accepted path is C16 (`run_covered`: writes ⊆ reported assignments, each checked by
-  `verify_mutable`; removals ⊆ `del` queries, each checked by `del`).
-  The full statement is false of the code in three classes (witnesses below): index segments are
+  * `insert_preserves`: an insert at a field path leaves every diverging field path unchanged — for
+    EVERY value, with no condition on the shape of the value (unlike C18's frame law, coercion
+    cannot hurt a field-only location);
+  * `remove_preserves` / `value_remove_preserves`: a removal at a field path, with or without
+    `compact`, leaves every diverging field path unchanged. Compaction deletes the parents the
+    removal emptied; a deleted parent was empty, so nothing was stored below it on the way to the
+    diverging path either. The law needs the objects along the preserved path to have unique keys
+    (`spineOK`, implied by the `BTreeMap` invariant `Value.Sorted`): the model's association-list
+    `remove` would otherwise uncover a shadowed duplicate (`witness_remove_unsorted_model`, a fact
+    about ill-formed model values only). With index segments the law is false of the code:
+    `del(.a[0])` shifts `.a[1]` (`witness_remove_index_shift`);
+  * `run_preserves_readonly` (+ `_event`, `_metadata`, `_below`): for EVERY compiled program all of
+    whose static write targets — external assignment targets (`assignsS`) and `del` paths (`delsS`) —
+    pass the read-only check of `cfg` and are field-only (`acceptsFieldProg`, decidable), every
+    well-formed initial state, every fault schedule and every outcome (value, error, abort, return,
+    panic; closures and iteration functions included): every recursive field-only read-only entry
+    of `cfg` holds after the run exactly what it held before, and so does every location below it.
+    Proved by instantiating the abstract invariant induction (Lemmas/Inv.lean, Lemmas/InvEval.lean)
+    with `Prot cfg s0`.
+  The full statement is false of the code in these classes (witnesses below): index segments are
   compared as written (`.a[-1]` vs `.a[1]`), a write through a container of the other type
-  replaces an ancestor (`.a[0] = 1` destroys `.a.b`), and a non-recursive read-only path does not
-  protect its children although they are part of its value.
+  replaces an ancestor (`.a[0] = 1` destroys `.a.b`), a removal shifts later array elements, and a
+  non-recursive read-only path does not protect its children although they are part of its value.
 -/
 import VrlModel.ReadOnly
 import VrlProofs.Props.C18
+import VrlProofs.Lemmas.C15Frame
+import VrlProofs.Lemmas.InvEval
+import VrlProofs.Lemmas.InvLog
 
 namespace C15
 open ReadOnly Value
@@ -133,6 +149,270 @@ theorem witness_nonrecursive_child :
     isReadOnly cfg false [.field [97], .field [98]] = false ∧
     (insertOpt (some v) [.field [97], .field [98]] (.int 2)).get [.field [97]] ≠ v.get [.field [97]] := by
   decide
+
+/-- removal frame law for field-only paths, any `compact` flag: the value at a diverging path is
+    unchanged (and its spine stays well-formed). -/
+theorem remove_preserves (v : Value) (p q : Path) (prune : Bool)
+    (hd : C18.diverge p q = true) (hp : fieldOnly p = true) (hq : fieldOnly q = true)
+    (hs : spineOK (some v) q = true) :
+    (v.remove p prune).2.get q = v.get q ∧ spineOK (some (v.remove p prune).2) q = true := by
+  unfold Value.remove Value.get
+  cases hr : removeOpt (some v) p prune with
+  | none => exact ⟨rfl, hs⟩
+  | some r =>
+    obtain ⟨prev, new, gone⟩ := r
+    have := removeOpt_frame p (some v) q prune _ hd hp hq hs hr
+    exact ⟨this.1, this.2.1⟩
+
+/-- the same for well-formed values (`Sorted` is the `BTreeMap` invariant of every real `Value`). -/
+theorem value_remove_preserves (v : Value) (p q : Path) (prune : Bool)
+    (hd : C18.diverge p q = true) (hp : fieldOnly p = true) (hq : fieldOnly q = true)
+    (hv : v.Sorted = true) : (v.remove p prune).2.get q = v.get q :=
+  (remove_preserves v p q prune hd hp hq
+    (spineOK_of_sorted q (some v) (by intro w hw; cases hw; exact hv))).1
+
+/-- D_remove_index_shift (why removals need `fieldOnly`): read-only recursive `.a[1]`; `del(.a[0])` is
+    accepted and moves another element into `.a[1]` on `{"a":[0,1]}` (observed on the implementation:
+    `val.remove`, and the program `del(.a[0])` under the configuration). -/
+theorem witness_remove_index_shift :
+    let cfg := [RO.mk false [.field [97], .index 1] true]
+    let v := Value.obj (.cons [97] (.arr (.cons (.int 0) (.cons (.int 1) .nil))) .nil)
+    isReadOnly cfg false [.field [97], .index 0] = false ∧
+    C18.diverge [.field [97], .index 0] [.field [97], .index 1] = true ∧
+    (v.remove [.field [97], .index 0] false).2.get [.field [97], .index 1] ≠ v.get [.field [97], .index 1] := by
+  decide
+
+/-- D_remove_index_shift through compaction: read-only recursive `.a[0].y`; `del(.a[0].x, compact: true)`
+    is accepted, empties element 0, compaction drops it and element 1 moves into `.a[0]`
+    (`[{"x":1},{"y":2}]`: `.a[0].y` was absent and is `2` afterwards; observed on the implementation). -/
+theorem witness_remove_compact_shift :
+    let cfg := [RO.mk false [.field [97], .index 0, .field [121]] true]
+    let v := Value.obj (.cons [97] (.arr (.cons (.obj (.cons [120] (.int 1) .nil))
+      (.cons (.obj (.cons [121] (.int 2) .nil)) .nil))) .nil)
+    isReadOnly cfg false [.field [97], .index 0, .field [120]] = false ∧
+    C18.diverge [.field [97], .index 0, .field [120]] [.field [97], .index 0, .field [121]] = true ∧
+    (v.remove [.field [97], .index 0, .field [120]] true).2.get [.field [97], .index 0, .field [121]]
+      ≠ v.get [.field [97], .index 0, .field [121]] := by
+  decide
+
+/-- why `remove_preserves` asks for unique keys along the preserved path: on the ill-formed model value
+    `{a: {b: 1}, a: {c: 2}}` (duplicate key — no `BTreeMap` looks like this, `Sorted` is false)
+    the compacting removal of `.a.b` uncovers the second `a`. -/
+theorem witness_remove_unsorted_model :
+    let v := Value.obj (.cons [97] (.obj (.cons [98] (.int 1) .nil)) (.cons [97] (.obj (.cons [99] (.int 2) .nil)) .nil))
+    v.Sorted = false ∧
+    (v.remove [.field [97], .field [98]] true).2.get [.field [97], .field [99]] ≠ v.get [.field [97], .field [99]] := by
+  decide
+
+/-! ### the program-level theorem -/
+
+open Lang
+
+/-- the target value a prefix addresses -/
+def tgtOf (s : St) (isMeta : Bool) : Value := if isMeta then s.metadata else s.event
+
+/-- invariant: every recursive field-only read-only location holds what it held in `s0` (and the
+    objects on the way to it have unique keys) -/
+def Prot (cfg : List RO) (s0 s : St) : Prop :=
+  ∀ ro ∈ cfg, ro.recursive = true → fieldOnly ro.path = true →
+    (tgtOf s ro.isMeta).get ro.path = (tgtOf s0 ro.isMeta).get ro.path ∧
+    spineOK (some (tgtOf s ro.isMeta)) ro.path = true
+
+theorem tgtOf_congr {s t : St} (he : t.event = s.event) (hm : t.metadata = s.metadata) (m : Bool) :
+    tgtOf t m = tgtOf s m := by
+  unfold tgtOf; rw [he, hm]
+
+theorem prot_congr {cfg : List RO} {s0 s t : St} (he : t.event = s.event)
+    (hm : t.metadata = s.metadata) (hs : Prot cfg s0 s) : Prot cfg s0 t := by
+  intro ro hro hrec hf
+  rw [tgtOf_congr he hm]
+  exact hs ro hro hrec hf
+
+theorem targetGet_target (s : St) (m : Bool) (p : Path) :
+    (s.targetGet m p).2.event = s.event ∧ (s.targetGet m p).2.metadata = s.metadata := by
+  unfold St.targetGet St.tick
+  simp only
+  split <;> exact ⟨rfl, rfl⟩
+
+/-- what a target insert does to the two target values -/
+theorem targetInsert_spec (s s' : St) (m : Bool) (p : Path) (v : Value)
+    (h : s.targetInsert m p v = some s') :
+    (s'.event = s.event ∧ s'.metadata = s.metadata) ∨
+    (tgtOf s' m = insertOpt (some (tgtOf s m)) p v ∧ tgtOf s' (!m) = tgtOf s (!m)) := by
+  unfold St.targetInsert St.tick at h
+  simp only at h
+  split at h
+  · cases h; exact .inl ⟨rfl, rfl⟩
+  · split at h
+    · cases h
+    · rename_i v' prev hins
+      cases h
+      right
+      unfold Value.insert at hins
+      split at hins
+      · cases hins
+      · cases hins
+        cases m <;> simp [tgtOf]
+
+/-- what a target removal does to the two target values -/
+theorem targetRemove_spec (s : St) (m : Bool) (p : Path) (c : Bool) :
+    ((s.targetRemove m p c).2.event = s.event ∧ (s.targetRemove m p c).2.metadata = s.metadata) ∨
+    (tgtOf (s.targetRemove m p c).2 m = ((tgtOf s m).remove p c).2 ∧
+      tgtOf (s.targetRemove m p c).2 (!m) = tgtOf s (!m)) := by
+  unfold St.targetRemove St.tick
+  simp only
+  split
+  · exact .inl ⟨rfl, rfl⟩
+  · right
+    cases m <;> simp [tgtOf]
+
+theorem okTarget_iff (cfg : List RO) (x : Bool × Path) :
+    okTarget cfg x = true ↔ isReadOnly cfg x.1 x.2 = false ∧ fieldOnly x.2 = true := by
+  simp [okTarget]
+
+/-- `Prot cfg s0` as an abstract invariant: reads are always harmless, inserts and removals are
+    harmless at accepted field-only paths. -/
+def protInv (cfg : List RO) (s0 : St) : Inv where
+  J := Prot cfg s0
+  G := fun _ => True
+  W := fun x => okTarget cfg x = true
+  D := fun x => okTarget cfg x = true
+  stable := fun _ _ he hm _ hs => prot_congr he hm hs
+  get := fun s m p _ hs => prot_congr (targetGet_target s m p).1 (targetGet_target s m p).2 hs
+  ins := by
+    intro s s' m p v hw hs hi
+    obtain ⟨hacc, hp⟩ := (okTarget_iff cfg (m, p)).mp hw
+    rcases targetInsert_spec s s' m p v hi with ⟨he, hm⟩ | ⟨h1, h2⟩
+    · exact prot_congr he hm hs
+    · intro ro hro hrec hf
+      obtain ⟨g, sp⟩ := hs ro hro hrec hf
+      by_cases hmm : ro.isMeta = m
+      · rcases accepted_diverges cfg ro m p hro hmm hacc hp hf with hd | ⟨hnr, _, _⟩
+        · rw [hmm, h1]
+          rw [hmm] at g sp
+          refine ⟨?_, insert_spine p _ _ v hd hp hf sp⟩
+          rw [← g]
+          exact insert_preserves p _ _ v hd hp hf
+        · rw [hrec] at hnr; cases hnr
+      · have : ro.isMeta = !m := by cases m <;> cases h : ro.isMeta <;> simp_all
+        rw [this, h2]
+        rw [this] at g sp
+        exact ⟨g, sp⟩
+  rem := by
+    intro s m p c hd hs
+    obtain ⟨hacc, hp⟩ := (okTarget_iff cfg (m, p)).mp hd
+    rcases targetRemove_spec s m p c with ⟨he, hm⟩ | ⟨h1, h2⟩
+    · exact prot_congr he hm hs
+    · intro ro hro hrec hf
+      obtain ⟨g, sp⟩ := hs ro hro hrec hf
+      by_cases hmm : ro.isMeta = m
+      · rcases accepted_diverges cfg ro m p hro hmm hacc hp hf with hdv | ⟨hnr, _, _⟩
+        · rw [hmm, h1]
+          rw [hmm] at g sp
+          obtain ⟨r1, r2⟩ := remove_preserves (tgtOf s m) p ro.path c hdv hp hf sp
+          exact ⟨r1.trans g, r2⟩
+        · rw [hrec] at hnr; cases hnr
+      · have : ro.isMeta = !m := by cases m <;> cases h : ro.isMeta <;> simp_all
+        rw [this, h2]
+        rw [this] at g sp
+        exact ⟨g, sp⟩
+
+theorem prot_init (cfg : List RO) (s : St) (hev : s.event.Sorted = true)
+    (hmd : s.metadata.Sorted = true) : Prot cfg s s := by
+  intro ro _ _ _
+  refine ⟨rfl, spineOK_of_sorted _ _ ?_⟩
+  intro w hw
+  cases hw
+  unfold tgtOf
+  split
+  · exact hmd
+  · exact hev
+
+theorem cov_of_accepts (cfg : List RO) (s0 : St) (prog : Exprs)
+    (hacc : acceptsFieldProg cfg prog = true) : CovS (protInv cfg s0) prog := by
+  unfold acceptsFieldProg writeTargets at hacc
+  rw [List.all_eq_true] at hacc
+  exact ⟨fun _ _ => trivial, fun x hx => hacc x (List.mem_append_left _ hx),
+    fun x hx => hacc x (List.mem_append_right _ hx)⟩
+
+/-- **Read-only paths are never modified** (field-only fragment, recursive entries): for every
+    compiled program whose static write targets all pass the read-only check of `cfg` and are
+    field-only, every well-formed initial state (any variables, any fault schedule) and every
+    recursive field-only read-only entry `ro` of `cfg`, the value at `ro.path` in `ro`'s target after
+    the run is the value before — whatever the outcome of the run. -/
+theorem run_preserves_readonly (cfg : List RO) (prog : Exprs) (s : St)
+    (hacc : acceptsFieldProg cfg prog = true)
+    (hev : s.event.Sorted = true) (hmd : s.metadata.Sorted = true)
+    (ro : RO) (hro : ro ∈ cfg) (hrec : ro.recursive = true) (hf : fieldOnly ro.path = true) :
+    (tgtOf (run prog s).2 ro.isMeta).get ro.path = (tgtOf s ro.isMeta).get ro.path :=
+  (run_inv (protInv cfg s) prog (cov_of_accepts cfg s prog hacc) trivial s (prot_init cfg s hev hmd)
+    ro hro hrec hf).1
+
+theorem run_preserves_readonly_event (cfg : List RO) (prog : Exprs) (s : St)
+    (hacc : acceptsFieldProg cfg prog = true)
+    (hev : s.event.Sorted = true) (hmd : s.metadata.Sorted = true)
+    (p : Path) (hro : RO.mk false p true ∈ cfg) (hf : fieldOnly p = true) :
+    (run prog s).2.event.get p = s.event.get p :=
+  run_preserves_readonly cfg prog s hacc hev hmd _ hro rfl hf
+
+theorem run_preserves_readonly_metadata (cfg : List RO) (prog : Exprs) (s : St)
+    (hacc : acceptsFieldProg cfg prog = true)
+    (hev : s.event.Sorted = true) (hmd : s.metadata.Sorted = true)
+    (p : Path) (hro : RO.mk true p true ∈ cfg) (hf : fieldOnly p = true) :
+    (run prog s).2.metadata.get p = s.metadata.get p :=
+  run_preserves_readonly cfg prog s hacc hev hmd _ hro rfl hf
+
+theorem getOpt_append (p : Path) : ∀ (c : Option Value) (q : Path),
+    getOpt c (p ++ q) = getOpt (getOpt c p) q := by
+  induction p with
+  | nil => intro c q; rfl
+  | cons t rest ih =>
+    intro c q
+    cases c with
+    | none => simp only [List.cons_append, C18.getOpt_none]
+    | some v =>
+      cases t with
+      | field f =>
+        cases v with
+        | obj m => simp only [List.cons_append, getOpt]; exact ih _ q
+        | _ => simp only [List.cons_append, getOpt, C18.getOpt_none]
+      | index i =>
+        cases v with
+        | arr a => simp only [List.cons_append, getOpt]; exact ih _ q
+        | _ => simp only [List.cons_append, getOpt, C18.getOpt_none]
+
+/-- … and so is every location below a recursive read-only path (any segments below it). -/
+theorem run_preserves_readonly_below (cfg : List RO) (prog : Exprs) (s : St)
+    (hacc : acceptsFieldProg cfg prog = true)
+    (hev : s.event.Sorted = true) (hmd : s.metadata.Sorted = true)
+    (ro : RO) (hro : ro ∈ cfg) (hrec : ro.recursive = true) (hf : fieldOnly ro.path = true) (q : Path) :
+    (tgtOf (run prog s).2 ro.isMeta).get (ro.path ++ q) = (tgtOf s ro.isMeta).get (ro.path ++ q) := by
+  have h := run_preserves_readonly cfg prog s hacc hev hmd ro hro hrec hf
+  unfold Value.get at h ⊢
+  rw [getOpt_append, getOpt_append, h]
+
+/-! non-vacuity of `run_preserves_readonly`: `.a.b` read-only (recursive); the program
+    `.a.c = 1; del(.a.d, compact: true); del(.x.y, compact: true)` passes the check, runs on
+    `{"a": {"b": 7, "d": 8}, "x": {"y": 1}}` to `{"a": {"b": 7, "c": 1}}` — it writes and removes
+    siblings of the read-only location and compaction deletes the emptied `.x`. -/
+
+def exCfg : List RO := [⟨false, [.field [97], .field [98]], true⟩]
+
+def exProg : Exprs :=
+  .cons (.asg (.external false [.field [97], .field [99]]) (.lit (.int 1)))
+    (.cons (.delExt false [.field [97], .field [100]] true (.lit (.bool true)))
+      (.cons (.delExt false [.field [120], .field [121]] true (.lit (.bool true))) .nil))
+
+def exS : St :=
+  { vars := [],
+    event := .obj (.cons [97] (.obj (.cons [98] (.int 7) (.cons [100] (.int 8) .nil)))
+      (.cons [120] (.obj (.cons [121] (.int 1) .nil)) .nil)),
+    metadata := .obj .nil, faults := [], ops := 0, log := [], errs := [] }
+
+example : acceptsFieldProg exCfg exProg = true ∧ exS.event.Sorted = true ∧ exS.metadata.Sorted = true ∧
+    (run exProg exS).2.event =
+      .obj (.cons [97] (.obj (.cons [98] (.int 7) (.cons [99] (.int 1) .nil))) .nil) ∧
+    (run exProg exS).2.event.get [.field [97], .field [98]] = some (.int 7) := by decide
 
 /-- non-vacuity of `accepted_diverges` / `value_insert_preserves` -/
 example : isReadOnly [RO.mk false [.field [97], .field [98]] true] false [.field [97], .field [99]] = false ∧
